@@ -140,9 +140,10 @@ type ExploreOptions struct {
 
 // PanicRecord describes an implementation panic during exploration.
 type PanicRecord struct {
-	System string  `json:"system"`
-	Path   []Event `json:"path"`
-	Msg    string  `json:"msg"`
+	System string         `json:"system"`
+	Cfg    map[string]any `json:"cfg,omitempty"` // the system's configuration (a panicking chain has no table to take it from)
+	Path   []Event        `json:"path"`
+	Msg    string         `json:"msg"`
 }
 
 // Explore computes the closure of sys' behaviour over its alphabet.
@@ -220,7 +221,7 @@ func Explore(sys System, opt ExploreOptions) (*Table, []PanicRecord, error) {
 			r := results[i]
 			p := append(append([]Event{}, t.paths[tk.n-1]...), events[tk.e])
 			if r.err != nil {
-				panics = append(panics, PanicRecord{System: sys.Name(), Path: p, Msg: fmt.Sprint(r.err)})
+				panics = append(panics, PanicRecord{System: sys.Name(), Cfg: sys.Config(), Path: p, Msg: fmt.Sprint(r.err)})
 				continue
 			}
 			to, known := index[r.fp]
@@ -272,7 +273,7 @@ func Explore(sys System, opt ExploreOptions) (*Table, []PanicRecord, error) {
 		wg2.Wait()
 		for i, n := range newNodes {
 			if probes[i].err != nil {
-				panics = append(panics, PanicRecord{System: sys.Name(), Path: t.paths[n-1], Msg: "probe: " + fmt.Sprint(probes[i].err)})
+				panics = append(panics, PanicRecord{System: sys.Name(), Cfg: sys.Config(), Path: t.paths[n-1], Msg: "probe: " + fmt.Sprint(probes[i].err)})
 				continue
 			}
 			t.Nodes[n-1] = mergeProbe(t.Nodes[n-1], probes[i].probe)
@@ -340,7 +341,7 @@ func Chain(sys System, name string, evs []Event, probeAtEnd bool) (*Table, *Pani
 			if e := recover(); e != nil {
 				buf := make([]byte, 4096)
 				n := runtime.Stack(buf, false)
-				pr = &PanicRecord{System: name, Path: done, Msg: fmt.Sprintf("%v\n%s", e, buf[:n])}
+				pr = &PanicRecord{System: name, Cfg: sys.Config(), Path: done, Msg: fmt.Sprintf("%v\n%s", e, buf[:n])}
 			}
 		}()
 		inst := sys.New()
